@@ -235,6 +235,27 @@ def correspond(ctx, scale):
                 if i_.dtype not in (torch.int32, torch.int64) or int(i_.min()) < 0 or int(i_.max()) >= K_ or tuple(i_.shape) != (2, 6) or tuple(o_.shape) != (2, 6, dd):
                     failures.append({'key': f'fsq:large-levels:{str(dt).split(".")[-1]}:{how}:index-range', 'what': f'FSQ({lv}) with {dt} via {how}: indices {i_.dtype} span [{int(i_.min())}, {int(i_.max())}] '
                                      f'(codebook size {K_}), shapes {tuple(o_.shape)} / {tuple(i_.shape)}', 'case': dict(levels=lv, dtype=str(dt), how=how)})
+    # implicit codebooks with MORE THAN 2^24 entries while every level count stays ordinary (thorough tier: the codebook itself takes a few hundred MB): the
+    # flat index is exact integer arithmetic - the saturated corners are 0 and codebook_size - 1, every index decodes to the emitted vector
+    if ctx.thorough:
+        try:
+            big_lv = [257, 256, 256]
+            qb = _FSQ(big_lv)
+            qb.eval()
+            Kb = 257 * 256 * 256
+            xb_ = torch.randn(2, 64, 3) * 2.0
+            xb_[0, 0], xb_[0, 1] = 60.0, -60.0
+            with torch.no_grad():
+                ob_, ib_ = qb(xb_)
+                db_ = qb.indices_to_codes(ib_)
+            ev += 1
+            dist['huge_implicit_codebook'] = dist.get('huge_implicit_codebook', 0) + 1
+            if int(ib_.max()) >= Kb or int(ib_.min()) < 0 or int(ib_[0, 0]) != Kb - 1 or int(ib_[0, 1]) != 0 or not torch.equal(db_, ob_):
+                failures.append({'key': 'fsq:huge-codebook:index-range', 'what': f'FSQ({big_lv}) (codebook size {Kb} > 2^24): indices span [{int(ib_.min())}, {int(ib_.max())}], saturated corners give '
+                                 f'{int(ib_[0, 0])} / {int(ib_[0, 1])} (expected {Kb - 1} / 0), decode == output: {bool(torch.equal(db_, ob_))}', 'case': dict(levels=big_lv)})
+            del qb
+        except Exception as ex:
+            failures.append({'key': f'fsq:huge-codebook:exception:{type(ex).__name__}', 'what': repr(ex), 'case': dict(levels=[257, 256, 256])})
     # BLANKET casts: nn.Module.type(dtype) casts EVERY buffer, integer ones included (so does loading a checkpoint converted with {k: v.float()} under
     # assign=True) - indices stay integer-typed, in range and of the documented shape whatever dtype the bookkeeping buffers have
     for sp in S:
